@@ -33,4 +33,9 @@ theorem hs_guard_regenerated (len : Nat) :
   simp only [LemoGen.Net.hsFrameBadLenCond, Frame.realCfg]
   by_cases h0 : len = 0 <;> by_cases h1 : len > 26214400 <;> simp [h0, h1]
 
+/-- `Msg.CheckCode`: `if msg.Code > 0x1F` is the `.badCode` test of the frame parser -/
+theorem badCode_regenerated (code : Nat) :
+    LemoGen.Net.badCodeCond code = decide (code > Frame.maxCode) := by
+  simp [LemoGen.Net.badCodeCond, Frame.maxCode]
+
 end LemoProofs.NetTieFrame
